@@ -42,6 +42,13 @@ func (e *enc) calleeKey(cc *ssa.CallCommon) (string, *ssa.Function) {
 
 func (e *enc) call(b *ssa.BasicBlock, c *ssa.Call) {
 	e.callCommon(b, c, &c.Call, c, e.reach[b])
+	if k := e.callKeyOf(&c.Call); k != "" {
+		if n, ok := e.names[c]; ok {
+			if _, isTuple := c.Type().(*types.Tuple); !isTuple {
+				e.callResults[fmt.Sprintf("%s#%d", k, e.callOrd[k])] = cval{n, e.sortOf(c.Type()), c.Type()}
+			}
+		}
+	}
 }
 
 // callCommon encodes a call. res is the SSA value receiving the result (nil for deferred calls).
@@ -119,12 +126,12 @@ func (e *enc) callCommon(b *ssa.BasicBlock, ins ssa.Instruction, cc *ssa.CallCom
 	key := funcKey(callee)
 	e.callOrd[key]++
 	e.countCall(key)
+	e.siteAsserts(ins, fmt.Sprintf("call %d of %s", e.callOrd[key], key), callee.Signature, args, R)
 	if callee.Signature.Recv() != nil && len(args) > 0 && callee.Pkg != nil && e.w.InRepo[callee.Pkg] {
 		if _, ok := cc.Args[0].Type().Underlying().(*types.Pointer); ok && !e.localAlloc[args[0]] {
 			e.addI("safe", "nil-recv", ins, R, fmt.Sprintf("(not (= %s 0))", args[0]))
 		}
 	}
-	e.siteAsserts(ins, fmt.Sprintf("call %d of %s", e.callOrd[key], key), callee.Signature, args, R)
 	e.ioCallCheck(ins, key, callee, R)
 	switch key {
 	case "fmt.Sprintf":
@@ -646,7 +653,9 @@ func (e *enc) runDefers(b *ssa.BasicBlock, rd *ssa.RunDefers) {
 			path = fmt.Sprintf("(and %s %s)", R, guard)
 		}
 		e.curInstr = rd
+		e.siteAt = rd
 		e.callCommon(b, d, &d.Call, nil, path)
+		e.siteAt = nil
 		if guard != "R_0" {
 			// conditional defer: merge
 			arrs := []string{}
@@ -834,6 +843,9 @@ func (e *enc) siteAsserts(ins ssa.Instruction, site string, sig *types.Signature
 
 // siteEnv: names are resolved to the values they hold just before ins.
 func (e *enc) siteEnv(ins ssa.Instruction) *cenv {
+	if e.siteAt != nil {
+		ins = e.siteAt // a deferred call runs where the defers are run, not where it was registered
+	}
 	env := e.newEnv()
 	env.st = e.heap
 	env.old = e.entry
